@@ -1,391 +1,324 @@
 package main
 
 import (
+	"encoding/json"
+	"flag"
 	"fmt"
-	"go/ast"
 	"go/token"
-	"go/types"
 	"os"
-	"os/exec"
+	"path/filepath"
 	"sort"
 	"strconv"
 	"strings"
-	"sync"
 	"time"
-
-	"golang.org/x/tools/go/packages"
-	"golang.org/x/tools/go/ssa"
-	"golang.org/x/tools/go/ssa/ssautil"
 )
 
-type Descriptor struct {
-	Name     string
-	Index    int
-	ArgTypes []int // TypeIDs, -1 = Any / unknown
-	HasArgs  bool
-	OutIDs   []int // nil = unknown
-	Strict   bool
-	Lit      *ast.FuncLit
-	Fn       *ssa.Function
-}
-
-var typeIDByName = map[string]int{"Null": 0, "Int": 1, "Float": 2, "Boolean": 3, "String": 4, "Time": 5, "Duration": 6, "Any": -1}
-
-func typeExprIDs(e ast.Expr) []int {
-	switch x := e.(type) {
-	case *ast.SelectorExpr:
-		if id, ok := typeIDByName[x.Sel.Name]; ok {
-			return []int{id}
-		}
-	case *ast.CallExpr:
-		if s, ok := x.Fun.(*ast.SelectorExpr); ok && s.Sel.Name == "TypeSum" {
-			var out []int
-			for _, a := range x.Args {
-				ids := typeExprIDs(a)
-				if ids == nil {
-					return nil
-				}
-				out = append(out, ids...)
-			}
-			return out
-		}
+func verifDir() string {
+	if d := os.Getenv("GOVC_VERIF"); d != "" {
+		return d
 	}
-	return nil
+	return "/verif"
 }
 
-func findDescriptors(pkg *packages.Package) []*Descriptor {
-	var out []*Descriptor
-	for _, f := range pkg.Syntax {
-		for _, d := range f.Decls {
-			fd, ok := d.(*ast.FuncDecl)
-			if !ok || fd.Name.Name != "FunctionMap" {
-				continue
-			}
-			ret := fd.Body.List[len(fd.Body.List)-1].(*ast.ReturnStmt)
-			m := ret.Results[0].(*ast.CompositeLit)
-			for _, el := range m.Elts {
-				kv := el.(*ast.KeyValueExpr)
-				name, _ := strconv.Unquote(kv.Key.(*ast.BasicLit).Value)
-				details := kv.Value.(*ast.CompositeLit)
-				for _, del := range details.Elts {
-					dkv := del.(*ast.KeyValueExpr)
-					if dkv.Key.(*ast.Ident).Name != "Descriptors" {
-						continue
-					}
-					for i, de := range dkv.Value.(*ast.CompositeLit).Elts {
-						desc := &Descriptor{Name: name, Index: i}
-						for _, fe := range de.(*ast.CompositeLit).Elts {
-							fkv := fe.(*ast.KeyValueExpr)
-							switch fkv.Key.(*ast.Ident).Name {
-							case "ArgumentTypes":
-								desc.HasArgs = true
-								for _, a := range fkv.Value.(*ast.CompositeLit).Elts {
-									ids := typeExprIDs(a)
-									if len(ids) == 1 {
-										desc.ArgTypes = append(desc.ArgTypes, ids[0])
-									} else {
-										desc.ArgTypes = append(desc.ArgTypes, -1)
-									}
-								}
-							case "OutputType":
-								desc.OutIDs = typeExprIDs(fkv.Value)
-							case "Strict":
-								desc.Strict = fkv.Value.(*ast.Ident).Name == "true"
-							case "Function":
-								switch fv := fkv.Value.(type) {
-								case *ast.FuncLit:
-									desc.Lit = fv
-								case *ast.CallExpr: // immediately invoked literal returning the function
-									outer := fv.Fun.(*ast.FuncLit)
-									for _, s := range outer.Body.List {
-										if r, ok := s.(*ast.ReturnStmt); ok {
-											desc.Lit = r.Results[0].(*ast.FuncLit)
-										}
-									}
-								}
-							}
-						}
-						out = append(out, desc)
-					}
-				}
-			}
-		}
-	}
-	return out
-}
-
-func allAnon(f *ssa.Function, out *[]*ssa.Function) {
-	for _, a := range f.AnonFuncs {
-		*out = append(*out, a)
-		allAnon(a, out)
-	}
-}
-
-type result struct {
-	obl     *Obligation
-	verdict string
-	solver  string
-	secs    float64
-	model   string
-}
-
-func solve(script string, tmo int) (string, string, string, float64) {
-	f, _ := os.CreateTemp("/dev/shm", "govc-*.smt2")
-	f.WriteString(script)
-	f.Close()
-	defer os.Remove(f.Name())
-	t0 := time.Now()
-	out, _ := exec.Command("z3-new", fmt.Sprintf("-T:%d", tmo), f.Name()).CombinedOutput()
-	s := string(out)
-	first := strings.SplitN(strings.TrimSpace(s), "\n", 2)[0]
-	return first, "z3-new", s, time.Since(t0).Seconds()
+type Item struct {
+	G        *GenUnit
+	O        *Obligation
+	Script   string
+	Res      SolveResult
+	Status   string // discharged | known-finding | violation
+	Finding  *Finding
+	Replay   string // path of the replay file
+	ReplayV  string // verdict line of the Go replay, if any
+	ExclRes  *SolveResult
+	Unit     string
+	EngineErr string
 }
 
 func main() {
-	if len(os.Args) > 1 && os.Args[1] == "-trigger" {
-		triggerMain()
-		return
+	if len(os.Args) < 2 {
+		fmt.Fprintln(os.Stderr, "usage: govc check -prop Cxx [-tier quick|thorough] | govc list -prop Cxx")
+		os.Exit(2)
 	}
-	if len(os.Args) > 1 && os.Args[1] == "-nodes" {
-		nodesMain()
-		return
+	switch os.Args[1] {
+	case "check":
+		os.Exit(checkMain(os.Args[2:]))
+	default:
+		fmt.Fprintln(os.Stderr, "unknown command", os.Args[1])
+		os.Exit(2)
 	}
-	if len(os.Args) > 1 && os.Args[1] == "-andor" {
-		andOrMain()
-		return
+}
+
+func loadProps() (map[string]*PropSpec, error) {
+	data, err := os.ReadFile(filepath.Join(verifDir(), "specs", "props.json"))
+	if err != nil {
+		return nil, err
 	}
-	if len(os.Args) > 1 && os.Args[1] == "-lawslist" {
-		lawsListMain()
-		return
+	m := map[string]*PropSpec{}
+	if err := json.Unmarshal(data, &m); err != nil {
+		return nil, fmt.Errorf("props.json: %v", err)
 	}
-	if len(os.Args) > 1 && os.Args[1] == "-laws" {
-		lawsMain()
-		return
+	return m, nil
+}
+
+func checkMain(args []string) int {
+	fs := flag.NewFlagSet("check", flag.ExitOnError)
+	prop := fs.String("prop", "", "property id")
+	tier := fs.String("tier", os.Getenv("VERIF_TIER"), "quick|thorough")
+	verbose := fs.Bool("v", false, "print every obligation")
+	only := fs.String("only", "", "substring filter on unit names (debugging; evidence is not written)")
+	dump := fs.String("dump", "", "directory to dump failing SMT scripts into")
+	fs.Parse(args)
+	if *tier == "" {
+		*tier = "quick"
+	}
+	seed := 0
+	if s := os.Getenv("VERIF_SEED"); s != "" {
+		seed, _ = strconv.Atoi(s)
 	}
 	t0 := time.Now()
-	cfg := &packages.Config{Mode: packages.LoadAllSyntax, Dir: "/repo", BuildFlags: []string{"-tags=verif"}}
-	pkgs, err := packages.Load(cfg, "github.com/cube2222/octosql/functions")
+	defer cleanupScratch()
+	props, err := loadProps()
 	if err != nil {
-		panic(err)
+		fmt.Fprintln(os.Stderr, "govc:", err)
+		return 2
 	}
-	prog, spkgs := ssautil.AllPackages(pkgs, ssa.NaiveForm|ssa.GlobalDebug|ssa.InstantiateGenerics)
-	prog.Build()
-	fpkg := spkgs[0]
-	fmt.Printf("loaded+built in %.1fs\n", time.Since(t0).Seconds())
-	descs := findDescriptors(pkgs[0])
-	var anon []*ssa.Function
-	allAnon(fpkg.Func("FunctionMap"), &anon)
-	bySyntax := map[ast.Node]*ssa.Function{}
-	for _, a := range anon {
-		bySyntax[a.Syntax()] = a
+	ps := props[*prop]
+	if ps == nil {
+		fmt.Fprintf(os.Stderr, "govc: property %s has no units in specs/props.json\n", *prop)
+		return 2
 	}
-	only := ""
-	if len(os.Args) > 1 {
-		only = os.Args[1]
+	kf, err := loadFindings()
+	if err != nil {
+		fmt.Fprintln(os.Stderr, "govc:", err)
+		return 2
 	}
-	var valueT types.Type
-	type job struct {
-		d    *Descriptor
-		e    *Exec
-		obls []*Obligation
-		vals []*Term
-		leafNames []string
-		nargs int
+	w, err := loadWorld(ps.Packages)
+	if err != nil {
+		// the tree does not compile: nothing is decided
+		fmt.Fprintln(os.Stderr, "govc: cannot load /repo:", err)
+		return 2
 	}
-	var jobs []*job
-	for _, d := range descs {
-		d.Fn = bySyntax[d.Lit]
-		if d.Fn == nil {
-			fmt.Printf("UNBOUND %s[%d]\n", d.Name, d.Index)
+	tLoad := time.Since(t0).Seconds()
+	// ---- generation (sequential: term construction is not thread-safe) ----
+	var gens []*GenUnit
+	for ui := range ps.Units {
+		us := &ps.Units[ui]
+		var gs []*GenUnit
+		switch us.Kind {
+		case "func":
+			gs = []*GenUnit{w.genFuncUnit(us)}
+		case "descriptors":
+			gs = w.genDescriptors(us)
+		case "lemma":
+			gs = []*GenUnit{w.genLemmaUnit(us)}
+		default:
+			fmt.Fprintln(os.Stderr, "govc: unknown unit kind", us.Kind)
+			return 2
+		}
+		for _, g := range gs {
+			g.Spec = us
+			if *only != "" && !strings.Contains(g.Name, *only) {
+				continue
+			}
+			gens = append(gens, g)
+		}
+	}
+	var items []*Item
+	explicit := 0
+	trivial := 0
+	for _, g := range gens {
+		if g.Err != "" {
+			items = append(items, &Item{G: g, Unit: g.Name, EngineErr: g.Err, O: &Obligation{Name: g.Name + "/engine", Kind: "engine"}})
 			continue
 		}
-		if only != "" && d.Name != only {
-			continue
+		for _, o := range g.E.obls {
+			if !claimed(g.Spec, localName(o.Name)) {
+				continue
+			}
+			if o.Explicit {
+				explicit++
+			}
+			it := &Item{G: g, O: o, Unit: g.Name}
+			as := g.E.assumes[:o.NAssum]
+			if len(g.WatchAssumes) > 0 {
+				as = append(append([]*Term{}, as...), g.WatchAssumes...)
+			}
+			it.Script = script(as, o.Cond, append(g.E.inputTerms(), g.WatchNames...))
+			items = append(items, it)
 		}
-		valueT = d.Fn.Params[0].Type().Underlying().(*types.Slice).Elem()
-		j := &job{d: d}
-		func() {
-			defer func() {
-				if r := recover(); r != nil {
-					fmt.Printf("SKIP %s[%d]: %v\n", d.Name, d.Index, r)
-					j = nil
-				}
-			}()
-			e := newExec(fmt.Sprintf("FunctionMap[%q][%d].Function", d.Name, d.Index), prog.Fset)
-			j.e = e
-			st := newState()
-			values := e.freshSV(d.Fn.Params[0].Type(), "values", tTrue, true).(*SliceV)
-			if d.HasArgs {
-				e.assume(eq(values.Len, intLit(int64(len(d.ArgTypes)))))
-			} else {
-				e.assume(le(intLit(1), values.Len)) // TypeFn descriptors: arity unknown in spike
+		for _, tn := range g.E.trivial {
+			if claimed(g.Spec, localName(tn)) {
+				trivial++
+				explicit++
 			}
-			e.assume(le(values.Len, values.Cap))
-			e.assume(lt(intLit(0), values.Base))
-			n := len(d.ArgTypes)
-			if !d.HasArgs {
-				n = 2
-			}
-			j.nargs = n
-			for i := 0; i < n; i++ {
-				el := e.loadElem(st, values, intLit(int64(i)), valueT).(*StructV)
-				var ls []*Term
-				leaves(el, &ls)
-				j.vals = append(j.vals, ls...)
-				li := 0
-				ai := i
-				build(valueT, "", func(path, sort string, _ types.Type) *Term {
-					j.leafNames = append(j.leafNames, fmt.Sprintf("rv!%d!%s", ai, path))
-					li++
-					return nil
-				})
-				tid := scal(el.Fields[0])
-				guard := lt(intLit(int64(i)), values.Len)
-				e.assume(implies(guard, and(le(intLit(0), tid), le(tid, intLit(9)))))
-				if d.HasArgs && d.ArgTypes[i] >= 0 {
-					e.assume(eq(tid, intLit(int64(d.ArgTypes[i]))))
-				} else if d.Strict {
-					e.assume(implies(guard, not(eq(tid, intLit(0)))))
-				}
-				// valid(): slice headers sane; int fields in range
-				for _, fi := range []int{7, 8, 9} {
-					sl := el.Fields[fi].(*SliceV)
-					e.assume(implies(guard, and(le(intLit(0), sl.Len), le(sl.Len, sl.Cap), le(intLit(0), sl.Off), le(intLit(0), sl.Base))))
-				}
-				e.assume(and(le(bigLit("MIN64"), scal(el.Fields[1])), le(scal(el.Fields[1]), bigLit("MAX64"))))
-				e.assume(and(le(bigLit("MIN64"), scal(el.Fields[6])), le(scal(el.Fields[6]), bigLit("MAX64"))))
-			}
-			vals, out := e.run(d.Fn, st, []SV{values}, nil, 0)
-			if vals != nil && d.OutIDs != nil {
-				res := vals[0].(*StructV)
-				errv := vals[1].(*IfaceV)
-				tid := scal(res.Fields[0])
-				var alts []*Term
-				anyOut := false
-				for _, id := range d.OutIDs {
-					if id < 0 {
-						anyOut = true
-					}
-					alts = append(alts, eq(tid, intLit(int64(id))))
-				}
-				if !anyOut {
-					e.oblige(out, "ensures.outtype", d.Lit.Pos(), implies(eq(errv.Tag, intLit(0)), or(alts...)))
-				}
-			}
-			j.obls = e.obls
-		}()
-		if j != nil {
-			jobs = append(jobs, j)
 		}
 	}
-	fmt.Printf("generated in %.1fs: %d closures\n", time.Since(t0).Seconds(), len(jobs))
-	type item struct {
-		j *job
-		o *Obligation
+	tGen := time.Since(t0).Seconds() - tLoad
+	secs := 10
+	if *tier == "thorough" {
+		secs = 60
 	}
-	var items []item
-	for _, j := range jobs {
-		for _, o := range j.obls {
-			items = append(items, item{j, o})
+	// ---- solving ----
+	parallel(len(items), 12, func(i int) {
+		it := items[i]
+		if it.EngineErr != "" {
+			return
 		}
-	}
-	jobOf := map[*Obligation]*job{}
+		it.Res = solvePortfolio(it.Script, secs, seed)
+	})
+	// ---- known findings: re-prove the failed obligation with the finding's input class excluded ----
 	for _, it := range items {
-		jobOf[it.o] = it.j
-	}
-	results := make([]result, len(items))
-	scripts := make([]string, len(items))
-	for i, it := range items { // term construction is not thread-safe: build scripts sequentially
-		as := append([]*Term{}, it.j.e.assumes[:it.o.NAssum]...)
-		var names []*Term
-		for k, lt := range it.j.vals {
-			c := mk(lt.Sort, it.j.leafNames[k])
-			declareLocal(it.j.leafNames[k], lt.Sort)
-			as = append(as, eq(c, lt))
-			names = append(names, c)
+		if it.EngineErr != "" {
+			it.Status = "violation"
+			continue
 		}
-		scripts[i] = script(as, it.o.Cond, names)
-	}
-	var wg sync.WaitGroup
-	sem := make(chan struct{}, 16)
-	for i, it := range items {
-		wg.Add(1)
-		go func(i int, it item) {
-			defer wg.Done()
-			sem <- struct{}{}
-			defer func() { <-sem }()
-			v, s, full, secs := solve(scripts[i], 10)
-			results[i] = result{obl: it.o, verdict: v, solver: s, secs: secs, model: full}
-			if os.Getenv("DUMP") != "" && v != "unsat" {
-				os.WriteFile("/dev/shm/"+sanitize(it.o.Name)+".smt2", []byte(scripts[i]), 0644)
-			}
-		}(i, it)
-	}
-	wg.Wait()
-	counts := map[string]int{}
-	var tot float64
-	sort.SliceStable(results, func(a, b int) bool { return results[a].obl.Name < results[b].obl.Name })
-	for _, r := range results {
-		counts[r.verdict]++
-		tot += r.secs
-		if r.verdict != "unsat" {
-			pos := prog.Fset.Position(r.obl.Pos)
-			fmt.Printf("%-8s %-70s %s:%d  (%.2fs)\n", r.verdict, r.obl.Name, shortFile(pos), pos.Line, r.secs)
-			if r.verdict == "sat" && os.Getenv("MODEL") != "" {
-				fmt.Println(compactModel(r.model))
-			}
-			if r.verdict == "sat" && os.Getenv("REPLAY") != "" {
-				j := jobOf[r.obl]
-				idx := strings.Index(r.model, "\n")
-				sxs := parseSx(r.model[idx+1:])
-				vals := map[string]*sx{}
-				if len(sxs) > 0 {
-					for _, pair := range sxs[0].list {
-						if len(pair.list) == 2 {
-							vals[pair.list[0].atom] = pair.list[1]
-						}
-					}
-				}
-				verdict, _ := replayDescriptor(j.d, r.obl.Kind, j.nargs, vals, j.d.OutIDs)
-				fmt.Printf("         %s\n", verdict)
-			}
+		if it.Res.Verdict == "unsat" {
+			it.Status = "discharged"
+			continue
+		}
+		it.Status = "violation"
+		fds := kf.match(*prop, it.O.Name)
+		if len(fds) == 0 {
+			continue
+		}
+		excl, err := it.G.classTerm(fds)
+		if err != nil {
+			fmt.Fprintf(os.Stderr, "govc: finding class for %s: %v\n", it.O.Name, err)
+			continue
+		}
+		as := append(append([]*Term{}, it.G.E.assumes[:it.O.NAssum]...), not(excl))
+		r := solvePortfolio(script(as, it.O.Cond, nil), secs, seed)
+		it.ExclRes = &r
+		if r.Verdict == "unsat" {
+			it.Status = "known-finding"
+			it.Finding = fds[0]
 		}
 	}
-	fmt.Printf("obligations=%d %v solver_s=%.1f wall=%.1fs\n", len(results), counts, tot, time.Since(t0).Seconds())
-	notes := map[string]int{}
-	for _, j := range jobs {
-		for n := range j.e.notes {
-			notes[n]++
+	// ---- vacuity: every unit must have a reachable return under its assumptions ----
+	vacuous := []string{}
+	canaries := 0
+	var canaryIdx []*GenUnit
+	for _, g := range gens {
+		if g.Err == "" && g.Canary != nil {
+			canaryIdx = append(canaryIdx, g)
 		}
 	}
-	var ns []string
-	for n, c := range notes {
-		ns = append(ns, fmt.Sprintf("%3d x %s", c, n))
+	canaryScripts := make([]string, len(canaryIdx))
+	for i, g := range canaryIdx {
+		canaryScripts[i] = script(g.E.assumes, not(g.Canary), nil)
 	}
-	sort.Strings(ns)
-	for _, n := range ns {
-		fmt.Println("note:", n)
+	canaryRes := make([]SolveResult, len(canaryIdx))
+	parallel(len(canaryIdx), 12, func(i int) { canaryRes[i] = solvePortfolio(canaryScripts[i], 5, seed) })
+	for i, g := range canaryIdx {
+		canaries++
+		if canaryRes[i].Verdict == "unsat" {
+			vacuous = append(vacuous, g.Name)
+		}
 	}
+	// ---- replay + report ----
+	os.MkdirAll(filepath.Join(verifDir(), "replays"), 0755)
+	violations := 0
+	sort.SliceStable(items, func(a, b int) bool { return items[a].O.Name < items[b].O.Name })
+	var lines []string
+	knownPrinted := map[string]bool{}
+	for _, it := range items {
+		switch it.Status {
+		case "violation":
+			violations++
+			it.writeReplay(w, *prop)
+			suffix := ""
+			if !strings.HasPrefix(it.ReplayV, "REPLAY: violated") {
+				suffix = " no-failing-input-found"
+			}
+			lines = append(lines, fmt.Sprintf("VIOLATION property=%s replay=%s obligation=%s%s", *prop, it.Replay, it.O.Name, suffix))
+		case "known-finding":
+			key := it.Finding.What
+			if !knownPrinted[key] {
+				knownPrinted[key] = true
+				lines = append(lines, fmt.Sprintf("KNOWN-FINDING: property=%s %s [%s]", *prop, it.Finding.What, it.O.Name))
+			}
+		}
+		if *verbose || it.Status != "discharged" {
+			pos := ""
+			if it.O.Pos != token.NoPos {
+				p := w.Prog.Fset.Position(it.O.Pos)
+				pos = fmt.Sprintf(" %s:%d", filepath.Base(p.Filename), p.Line)
+			}
+			fmt.Fprintf(os.Stderr, "  %-14s %-8s %-9s %5.2fs %s%s %s\n", it.Status, it.Res.Verdict, it.Res.Solver, it.Res.Secs, it.O.Name, pos, it.EngineErr)
+		}
+		if *dump != "" && it.Status != "discharged" && it.Script != "" {
+			os.MkdirAll(*dump, 0755)
+			os.WriteFile(filepath.Join(*dump, sanitize(it.O.Name)+".smt2"), []byte(it.Script), 0644)
+		}
+	}
+	machinery := []string{}
+	if len(vacuous) > 0 {
+		machinery = append(machinery, "vacuous preconditions (no return reachable) in: "+strings.Join(vacuous, ", "))
+	}
+	if explicit < ps.MinExplicit {
+		// contract clauses that no longer bind to the code: obligations that used to be proved are not generated
+		violations++
+		rp := filepath.Join(verifDir(), "replays", *prop+"_binding.txt")
+		os.WriteFile(rp, []byte(fmt.Sprintf("property %s: %d explicit obligations generated, %d pinned in specs/props.json.\nContract clauses no longer bind to the code (loop/stream ordinals, literals or return sites disappeared).\n", *prop, explicit, ps.MinExplicit)), 0644)
+		lines = append(lines, fmt.Sprintf("VIOLATION property=%s replay=%s obligation=%s/binding no-failing-input-found", *prop, rp, *prop))
+	}
+	if len(items) == 0 {
+		machinery = append(machinery, "no obligations generated")
+	}
+	wall := time.Since(t0).Seconds()
+	if *only == "" {
+		if err := writeEvidence(w, *prop, *tier, seed, ps, gens, items, explicit, trivial, canaries, vacuous, wall, tLoad, tGen, violations, kf); err != nil {
+			machinery = append(machinery, "evidence: "+err.Error())
+		}
+	}
+	for _, l := range lines {
+		fmt.Println(l)
+	}
+	nd := 0
+	for _, it := range items {
+		if it.Status != "violation" {
+			nd++
+		}
+	}
+	fmt.Printf("%s tier=%s units=%d obligations=%d (explicit %d, trivially true %d) discharged=%d violations=%d load=%.1fs gen=%.1fs wall=%.1fs\n",
+		*prop, *tier, len(gens), len(items), explicit, trivial, nd, violations, tLoad, tGen, wall)
+	if len(machinery) > 0 {
+		for _, m := range machinery {
+			fmt.Fprintln(os.Stderr, "govc: MACHINERY ERROR:", m)
+		}
+		return 2
+	}
+	if violations > 0 {
+		return 1
+	}
+	return 0
 }
 
-func types_NewPointer(t types.Type) types.Type { return types.NewPointer(t) }
-
-func shortFile(p token.Position) string {
-	i := strings.LastIndex(p.Filename, "/")
-	return p.Filename[i+1:]
+func (w *World) genFuncUnit(us *UnitSpec) *GenUnit {
+	sp, _ := w.pkgByName(us.Pkg)
+	base := us.Pkg + "." + us.Sel
+	if i := strings.LastIndex(us.Pkg, "/"); i >= 0 {
+		base = us.Pkg[i+1:] + "." + us.Sel
+	}
+	if sp == nil {
+		return &GenUnit{Name: base, Err: "package " + us.Pkg + " not loaded"}
+	}
+	fn, err := w.resolve(sp, us.Sel)
+	if err != nil {
+		return &GenUnit{Name: base, Err: err.Error()}
+	}
+	c := w.CS.forFunc(sp.Pkg, us.Sel)
+	return w.genFunc(fn, c, base)
 }
 
-func compactModel(s string) string {
-	lines := strings.Split(s, "\n")
-	var out []string
-	for _, l := range lines[1:] {
-		l = strings.TrimSpace(l)
-		if strings.Contains(l, "TypeID") || strings.Contains(l, ".Int") || strings.Contains(l, "len") || strings.Contains(l, "Str") {
-			out = append(out, "    "+l)
+func (e *Exec) inputTerms() []*Term {
+	var out []*Term
+	seen := map[*Term]bool{}
+	for _, t := range e.inputs {
+		if !seen[t] {
+			seen[t] = true
+			out = append(out, t)
 		}
 	}
-	if len(out) > 14 {
-		out = out[:14]
-	}
-	return strings.Join(out, "\n")
+	return out
 }
